@@ -236,18 +236,16 @@ Definition check_case (c : case) : list N :=
   | CJoin pre p r =>
       flag (ores_eqb strs_eqb r (project (join_prefix_and_path (gp_of_opt pre) (gp_of_opt p)))) 1
   | CQuery q r =>
-      if negb (utf8_all q) then []   (* byte-level model does not apply; observation kept in the evidence only *)
-      else
-        flag (ores_eqb qobs_eqb r
-                (match query_path q with
-                 | Ok p => ROk (gp_elems p, gp_element p, to_strings false p)
-                 | Err _ => RErr
-                 | Panic _ => RPanic
-                 end)) 1 ++
-        (if forallb plain q then
-           let ok := match r with ROk (_, _, idx) => strs_eqb idx q | _ => false end in
-           if ok then [] else if last_ok q then [5%N] else [13%N]
-         else [])
+      flag (ores_eqb qobs_eqb r
+              (match query_path q with
+               | Ok p => ROk (gp_elems p, gp_element p, to_strings false p)
+               | Err _ => RErr
+               | Panic _ => RPanic
+               end)) 1 ++
+      (if forallb plain q then
+         let ok := match r with ROk (_, _, idx) => strs_eqb idx q | _ => false end in
+         if ok then [] else if last_ok q then [5%N] else [13%N]
+       else [])
   | CFromTo x jvalid r1 r2 =>
       let jv := jv_of jvalid in
       flag (ores_eqb tv_eqb r1 (project (from_scalar x)) && ores_eqb gs_eqb r2 (bind_scalar jv x)) 1 ++
